@@ -331,6 +331,26 @@ func runC04(p *core.Program, r *core.Report) {
 			}
 		}
 		c.ob("PV1", p.FuncName(fGet), "Get is the descent from the root", c.fpos(fGet), okG, "Get must return root.get(b, key)")
+		// ... and answers with nothing else: every return hands back both results of that
+		// call, unmodified (no early answer that depends on some other state)
+		for _, b := range fGet.Blocks {
+			rt, ok := b.Instrs[len(b.Instrs)-1].(*ssa.Return)
+			if !ok || b == fGet.Recover {
+				continue
+			}
+			rv := path.ReturnValues(rt)
+			okR := false
+			if len(rv) == 2 {
+				e0, ok0 := path.Unspill(rv[0]).(*ssa.Extract)
+				e1, ok1 := path.Unspill(rv[1]).(*ssa.Extract)
+				if ok0 && ok1 && e0.Tuple == e1.Tuple && e0.Index == 0 && e1.Index == 1 {
+					if call, ok := e0.Tuple.(*ssa.Call); ok && path.StaticCallee(call) == fn {
+						okR = true
+					}
+				}
+			}
+			c.ob("PV1", p.FuncName(fGet), "Get answers what the descent found", p.InstrPos(rt), okR, "Get returns something other than the unmodified result of root.get(b, key): an answer that depends on other state (the size, a cache, a special key) is not the tree's")
+		}
 	}
 
 	// ---------------- traverse order and pairing
